@@ -53,6 +53,7 @@ import (
 	"reflect"
 	"runtime"
 	"slices"
+	"strings"
 	"sync/atomic"
 	"unsafe"
 	_ "unsafe"
@@ -698,9 +699,11 @@ func doRecover(caller *frame) value {
 		case targetPanic:
 			// The target program explicitly called panic().
 			return p.v
+		case runtimeError:
+			return iface{caller.i.runtimeErrorString, string(p)}
 		case runtime.Error:
 			// The interpreter encountered a runtime error.
-			return iface{caller.i.runtimeErrorString, p.Error()}
+			return iface{caller.i.runtimeErrorString, strings.TrimPrefix(p.Error(), "runtime error: ")}
 		case string:
 			// The interpreter explicitly called panic().
 			return iface{caller.i.runtimeErrorString, p}
